@@ -32,9 +32,10 @@ CHECKS = {
     "C14": dict(
         category="proof",
         text=("Coq theorems for EVERY typing oracle and every access path: the arm-for-arm model of get_mutability (assignment and ^mut consumers) "
-              "accepts exactly the type-directed mutable places outside a precisely defined class `suspect` (the arms that look at the "
-              "initialiser expression instead of the pointer type), where soundness and completeness are refuted by witnesses replayed "
-              "on the real compiler (writes through immutable pointers that change a `::` binding). Exhaustive chain enumeration (16 root "
+              "is SOUND IN FULL for the repaired code (C14_fix2_full_sound: an accepted assignment or ^mut never targets an immutable "
+              "place, with every auto-dereferenced pointer level taken into account) and complete outside a precisely defined class; for the "
+              "pre-fix variants soundness is refuted by witnesses (call results, indexed pointers, second dereference, multi-level auto-deref) "
+              "kept as history. Exhaustive chain enumeration (16 root "
               "types x <=3 steps x plain/compound/^mut/^) through the real front end vs the model; accepted programs are built and run and no "
               "`::` cell may change (run-time oracle independent of the model)."),
         design_ref="DESIGN.md section 6 C14, section 10.6",
@@ -54,13 +55,13 @@ CHECKS = {
         category="translation_validation",
         text=("Independent oracle = definitional interpreter eval_prog of coq/Common/CapyCore.v (integers of all 12 types with wrap-around, "
               "truncating division, masked shifts, casts; bool; locals; assignment to places; if/else; while/loop; labelled break/continue; "
-              "blocks with values; calls/recursion; return; bounds-checked arrays; structs; print events; exit status = main's result mod 256; "
+              "blocks with values; calls/recursion; return; bounds-checked arrays; structs; defer (LIFO, exactly once); enums with payloads, optionals, error unions, switch with argument and default arm, #is_variant, #unwrap (abort fault), .try; print events; exit status = main's result mod 256; "
               "fault = message + exit 1). Coq proves its meta-theory: determinism, fuel monotonicity, preservation and type safety "
               "(C01_type_safety_partial: a program accepted by well_typed never gets stuck, for every fuel). Every run: 64 boundary programs "
               "+ 240 (quick) / 1500 (thorough) generated well-typed programs are re-checked by the extracted well_typed, evaluated by the "
               "extracted interpreter, compiled by the real capy and run; stdout and exit status must agree; failing programs are shrunk on the AST."),
         design_ref="DESIGN.md section 6 C01, section 10.12",
-        note=TB + "The semantics itself is the specification (written from the README and observation). Not yet in CapyCore: char, slices, enums/switch, optionals, error unions, pointers, lambdas, varargs, defer, floats. Division by zero / MIN/-1 are machine traps (skipped). No simulation proof source->Cranelift IR exists or is claimed; lowering-decision theorems live in C02/C03/C08/C10/C11. Axioms: none.",
+        note=TB + "The semantics itself is the specification (written from the README and observation). Not yet in CapyCore: char, slices, pointers, lambdas, varargs, floats (pointers/slices need a store-based semantics). Division by zero / MIN/-1 are machine traps (skipped). No simulation proof source->Cranelift IR exists or is claimed; lowering-decision theorems live in C02/C03/C08/C10/C11. Axioms: none.",
         technique="Translation validation against a Coq-defined semantics + Coq proofs of the semantics' meta-theory (type safety by a step functional)"),
     "C02": dict(
         category="proof",
@@ -92,7 +93,7 @@ CHECKS = {
               "integers; nested generic calls) instantiated 1-4 times vs the same AST with substituted copies (python subst = extracted Coq "
               "subst_fun on every case); real generic = real copy = eval_prog."),
         design_ref="DESIGN.md section 6 C16, section 10.12",
-        note=TB + "Type arguments are integer types <= 64 bits only; no struct/distinct type arguments, inline header references, varargs or other-file generics; the table model is not tied to hir_ty by a harness. Axioms: none.",
+        note=TB + "Type arguments: integer and distinct integer types, struct/enum types for opaque uses, generics in another file; not generated: inline header references and varargs; the table model is not tied to hir_ty by a harness. Axioms: none.",
         technique="Coq proof (substitution lemma by induction on fuel over a step functional) + end-to-end differential generic/substituted programs"),
     "C19": dict(
         category="proof",
